@@ -9,7 +9,7 @@ and the readers with the loop parts as parameters.  Hand-written, no Mathlib.
 * primitives of the bodies: `lenI` (`len(xs)`), `mkPart` / `mkPartJ` (`Particle(fmt, tokens[, attrs])` /
   `Particle("JETSCAPE", tokens)`: the abstract row -> particle view of the shared model, i.e. the column-count and
   token-conversion checks), the numpy operations on `num_output_per_event_` (`npSetRow`, `npDelete2d`, `npShape0`,
-  `npDecLabelsFrom`, `Counts.empty`); sequencing is `RdSel.eBind`;
+  `npDecLabelsFrom`, `Counts.empty`), `pyTokInt` (`int(tokens[i])`); sequencing is `RdSel.eBind`;
 * `readOscarParts` / `readJetscapeParts` : `Rd.readOscar` / `Rd.readJetscape` with selection arithmetic, loop, start state,
   final check and (Oscar) `set_num_events` as parameters; at the hand-written parts they ARE the shared readers
   (`Lemmas/ReaderLoopGen.lean`);
@@ -21,7 +21,7 @@ namespace SparkxVerif.RdLoop
 open SparkxVerif.Rd SparkxVerif.RdSel
 
 /-- `len(xs)` -/
-def lenI {α : Type} (xs : List α) : Int := (xs.length : Int)
+abbrev lenI {α : Type} (xs : List α) : Int := (xs.length : Int)
 
 /-- the loop skeleton: exactly `n` lines are read; end of file raises `eofErr` -/
 def lineLoop (eofErr : Err) (step : Bool → Nat → LineF → LoopSt → Except Err LoopSt) :
@@ -43,6 +43,14 @@ def mkPartJ (lineNo : Nat) (toks : List String) : Except Err PLine :=
   if toks.length != 7 then .error .value
   else if !fieldsOk [false, false, false, true, true, true, true] toks then .error .value
   else .ok ⟨lineNo, toks⟩
+
+/-- `int(tokens[i])`: `IndexError` if there is no such token, `ValueError` if it is not an integer literal -/
+def pyTokInt (toks : List String) (i : Nat) : Except Err Int :=
+  match toks[i]? with
+  | none => .error .index
+  | some t => match pyInt? t with
+    | none => .error .value
+    | some n => .ok n
 
 /-- `a[idx] = (x, y)` -/
 def npSetRow (c : Counts) (idx : Nat) (r : Int × Int) : Except Err Counts := setRow c idx r
@@ -129,8 +137,9 @@ def coreJetscapeParts : JetscapeParts where
 /-- a JETSCAPE trailer line as the loop tests it -/
 def isTrailer (l : LineF) : Bool := l.hasHash && l.hasSigma
 
-/-- no line follows a trailer line (`# sigmaGen …`): the source does not reset `data` after the trailer, the shared model
-does; they agree on every input in which a trailer line, if present, is the last line -/
+/-- no line follows a trailer line (`# sigmaGen …`): the source does not reset `data` after the trailer (and the stored
+event stays the same list object as `data`), the shared model does; they agree on every input in which a trailer line, if
+present, is the last line -/
 def trailerLastB : List LineF → Bool
   | [] => true
   | l :: ls => (!isTrailer l || ls.isEmpty) && trailerLastB ls
